@@ -152,32 +152,32 @@ type c39World struct {
 	// tcopy is what T must hold for A (nil until the snapshot is imported)
 	tcopy *logical
 	// frozenSA is S's content of A at the switch (S must never change it again)
-	frozenSA *logical
-	phase    int // 0 idle, 1 snapshot exported, 2 delta, 3 fenced, 4 switched
-	outboxing bool // S has its outgoing delta target set
-	overlap   bool // snapshot export happens some batches after the outbox started
-	tOwnsA   bool
-	sOwnsA   bool
-	snap     metadb.SlotSnapshot
-	snapRef  *logical
-	sCmd     map[uint64]*dcmd  // S log index -> accepted ordinary command
-	sBytes   map[uint64][]byte // S log index -> payload that must be in the outbox
-	outbox   map[uint64][]byte // expected outbox rows (A, S->T)
-	stateUp  bool              // migration state record exists at S
-	lastOut  uint64
-	fenceIdx uint64
-	fwd      []fwdRec
-	firstDel uint64            // highest source index delivered to T for the first time
-	delivered map[uint64][]byte // source index -> data, applied on T
-	acked    map[uint64]bool
-	cleaned  bool
-	clock    int64
-	evCount  int
-	sentEv   map[uint16][]metadb.MessageEventAppend
-	verCount map[string]uint64
-	accepted int
-	refused  int
-	injected bool
+	frozenSA     *logical
+	phase        int  // 0 idle, 1 snapshot exported, 2 delta, 3 fenced, 4 switched
+	outboxing    bool // S has its outgoing delta target set
+	overlap      bool // snapshot export happens some batches after the outbox started
+	tOwnsA       bool
+	sOwnsA       bool
+	snap         metadb.SlotSnapshot
+	snapRef      *logical
+	sCmd         map[uint64]*dcmd  // S log index -> accepted ordinary command
+	sBytes       map[uint64][]byte // S log index -> payload that must be in the outbox
+	outbox       map[uint64][]byte // expected outbox rows (A, S->T)
+	stateUp      bool              // migration state record exists at S
+	lastOut      uint64
+	fenceIdx     uint64
+	fwd          []fwdRec
+	firstDel     uint64            // highest source index delivered to T for the first time
+	delivered    map[uint64][]byte // source index -> data, applied on T
+	acked        map[uint64]bool
+	cleaned      bool
+	clock        int64
+	evCount      int
+	sentEv       map[uint16][]metadb.MessageEventAppend
+	verCount     map[string]uint64
+	accepted     int
+	refused      int
+	injected     bool
 	dupDelivered int
 }
 
@@ -655,11 +655,11 @@ func (w *c39World) ordinaryItem(hs uint16) sItem {
 // ---- T side ----
 
 type tItem struct {
-	d      *dcmd
-	delta  uint64 // source index of an apply-delta proposal (0 = ordinary command)
-	first  bool
-	bytes  []byte
-	hs     uint16
+	d     *dcmd
+	delta uint64 // source index of an apply-delta proposal (0 = ordinary command)
+	first bool
+	bytes []byte
+	hs    uint16
 }
 
 func (w *c39World) deltaItem(idx uint64, data []byte, first bool) tItem {
@@ -800,6 +800,13 @@ func (w *c39World) deliver(tag string, withDups bool) bool {
 			items = append(items, w.deltaItem(row.SourceIndex, row.Data, false))
 			w.injected = true
 		}
+	}
+	if withDups && len(rows) > 1 && t.Chance(1, 3) {
+		// an earlier delta of this very batch once more, after its successors
+		row := rows[t.Intn(len(rows)-1)]
+		items = append(items, w.deltaItem(row.SourceIndex, row.Data, false))
+		w.injected = true
+		w.r.Probe("delta_repeated_after_successor_in_batch")
 	}
 	if withDups && t.Chance(1, 3) {
 		// T's own traffic shares the batch
